@@ -1,7 +1,7 @@
 (* Entry points of the executable model, by name. One dispatcher so that the OCaml driver and
    the in-Coq case files need no per-function glue. *)
 From Coq Require Import ZArith NArith List String Bool.
-From Sia Require Import Prim.Result Prim.Tok Currency.Model Merkle.Tree Merkle.Forest Merkle.Acc Merkle.Rhp Policy.Model Pow.Model Codec.Schema Codec.Shape Codec.Irregular Gen.Schemas Ledger.Types Ledger.Mid Ledger.Validate Ledger.Apply Hash.Ids.
+From Sia Require Import Prim.Result Prim.Tok Currency.Model Merkle.Tree Merkle.Forest Merkle.Acc Merkle.Rhp Policy.Model Pow.Model Codec.Schema Codec.Shape Codec.Irregular Gen.Schemas Ledger.Types Ledger.Mid Ledger.Validate Ledger.Apply Hash.Ids Merkle.Multi Gateway.Outline.
 Import ListNotations.
 Open Scope string_scope.
 Open Scope list_scope.
@@ -58,6 +58,49 @@ Section Dispatch.
         ++ map (fun q => tbool (contains_leaf H a (fst q) (snd q))) qs)%list
     | None => bad_args
     end.
+
+  (* ---- C18: multiproofs and block outlines ---- *)
+  Definition p_mleaf : parser (mleaf hash) :=
+    let* i := pN in let* x := pB in let* pr := plist pB in pret {| ml_idx := i; ml_hash := x; ml_proof := pr |}.
+  Definition bytes_eqb (a b : bytes) : bool := if list_eq_dec N.eq_dec a b then true else false.
+  Definition find_proof (out : list (nat * list (N * list hash))) (h : nat) (i : N) : option (list hash) :=
+    match find (fun e => Nat.eqb (fst e) h) out with
+    | Some (_, l) => match find (fun e => N.eqb (fst e) i) l with Some (_, p) => Some p | None => None end
+    | None => None
+    end.
+  Definition api_c18 (name : string) (args : list tok) : option (list tok) :=
+    if name =? "c18.multiproof" then
+      option_map (fun ls =>
+        match compute_all hash ls with
+        | Some mp => (TZ 0 :: tN (infer_leaves (map (fun x => (ml_idx hash x, List.length (ml_proof hash x))) ls))
+                        :: tnat (msize_all hash ls) :: t_hashes mp)%list
+        | None => [TZ 2]
+        end) (run_parser (plist p_mleaf) args)
+    else if (name =? "c18.expand") || (name =? "c18.verdict") then
+      option_map (fun '(nl, ls, mp) =>
+        (if name =? "c18.verdict" then firstn 1 else (fun l : list tok => l)) (
+        let lens := map (fun x => proof_len (fst x) nl) ls in
+        if existsb (fun o => match o with None => true | Some _ => false end) lens then [TZ 1] else
+        let blank := map (fun x => {| ml_idx := fst x; ml_hash := snd x;
+                                      ml_proof := repeat (@nil N) (match proof_len (fst x) nl with Some h => h | None => 0 end) |}) ls in
+        match expand_all hash (node H) blank mp with
+        | None => [TZ 2]
+        | Some (out, rest) =>
+          (TZ 0 :: tnat (List.length rest) ::
+            List.concat (map (fun x => match find_proof out (List.length (ml_proof hash x)) (ml_idx hash x) with
+                                       | Some p => t_hashes p
+                                       | None => [TZ (-1)]
+                                       end) blank))%list
+        end)) (run_parser (let* nl := pN in let* ls := plist (let* i := pN in let* x := pB in pret (i, x)) in
+                          let* mp := plist pB in pret (nl, ls, mp)) args)
+    else if name =? "c18.outline" then
+      option_map (fun '(b, omit, pool) =>
+        let o := complete bytes bytes bytes_eqb (fun x => x) (outline bytes bytes bytes_eqb (fun x => x) b omit) pool in
+        (map (fun e => tbool (match o_txn bytes bytes e with Some _ => true | None => false end)) o
+          ++ TZ (-1) :: map TB (missing bytes bytes o))%list)
+        (run_parser (let* b := plist pB in let* om := plist pB in let* pool := plist pB in pret (b, om, pool)) args)
+    else None.
+
   (* ---- C14: spend policies ---- *)
   Definition spec_of (l : list N) : bytes := firstn 16 (l ++ repeat 0%N 16).
   Definition SPEC_ED25519 := spec_of [101; 100; 50; 53; 53; 49; 57]%N.
@@ -407,6 +450,9 @@ Section Dispatch.
     match api_ledger name args with
     | Some r => r
     | None =>
+    match api_c18 name args with
+    | Some r => r
+    | None =>
     match name, args with
     | "hash", [TB b] => [TB (H b)]
     | "c12.derive", [TB nm; TB i; TZ k] => [TB (derive H nm (id_index_args i (Z.to_N k)))]
@@ -416,5 +462,5 @@ Section Dispatch.
     | "c05.leafhash", [TB e; TZ i; TZ s] => [TB (leaf_hash H (mkLeaf e (Z.to_N i) (negb (Z.eqb s 0))))]
     | "c05.proofroot", TB x :: TZ i :: ps => [TB (proofRootN H x (Z.to_N i) (List.concat (map (fun t => match t with TB b => [b] | _ => [] end) ps)))]
     | _, _ => bad_args
-    end end end end end end end.
+    end end end end end end end end.
 End Dispatch.
